@@ -21,7 +21,8 @@
             C16-F5 (592b6f8: partition / window frame saved around relational arguments), and the plain-aggregate half
             of F1 (8d54bf7).  Their RQs are kept below as c16_regression_*: none of them is tolerated any more. *)
 From Coq Require Import List NArith Bool.
-From PV Require Import Lib.ListX Model.Rq Model.RqWf Model.Lowerer Proofs.RqWfProofs Proofs.LowererProofs.
+From PV Require Import Lib.ListX Model.Rq Model.RqWf Model.Lowerer Model.RqEq Model.LowererTrace
+                       Proofs.RqWfProofs Proofs.LowererProofs Proofs.LowererTraceProofs.
 Import ListNotations.
 Local Open Scope N_scope.
 
@@ -126,6 +127,26 @@ Theorem toposort_decl_before_use : forall dag fuel start l,
   In start l /\ forall i n, nth_error l i = Some n -> incl (dag n) (firstn i l).
 Proof. exact toposort_spec. Qed.
 Print Assumptions toposort_decl_before_use.
+
+(* ---- the tie: the op trace of semantic/lowering.rs replayed against the machine (Model/LowererTrace.v) ----
+   For every generated program the check turns the `verif:lowerer_op` lines of one compilation into a list of operations with
+   the values the code observed, and evaluates [replay_ok] on it and on the RQ the implementation returned.  A `true` means: *)
+
+Theorem trace_replay_sound : forall l q,
+  replay_ok l q = true -> exists s, run init (map fst l) = Some s /\ finish s = Some q.
+Proof. exact replay_ok_sound. Qed.
+Print Assumptions trace_replay_sound.
+
+(* ... so the implementation's RQ for that program is closed and all back-end lookups on it are total, by the theorems
+   about ALL runs -- not because the RQ was inspected *)
+Theorem trace_replay_gives_closed_rq : forall l q, replay_ok l q = true -> rq_closed q /\ lookups_total q.
+Proof. exact replay_ok_closed. Qed.
+Print Assumptions trace_replay_gives_closed_rq.
+
+(* the comparison of two RQs inside Coq is Leibniz equality *)
+Theorem rq_eqb_is_equality : forall a b, rq_eqb a b = true -> a = b.
+Proof. exact rq_eqb_sound. Qed.
+Print Assumptions rq_eqb_is_equality.
 
 (* ---- utils/id_gen.rs: the generators the SQL back end loads from the RQ it is handed (79f4a51) ---- *)
 
@@ -325,4 +346,17 @@ Definition regression_f1_aggregate : rq :=
 
 Example c16_regression_f1_sort_past_plain_aggregate :
   rq_diags regression_f1_aggregate = [DNotVisible 1 STakeSort 0] /\ rq_wf regression_f1_aggregate = false.
+Proof. vm_compute. auto. Qed.
+
+(* the trace of `from t | join (from u | select {c, d} | join (from v | select {c}) true) true` as vplib/props/c16_trace.py
+   produces it from the hook's events (14 operations with their observations): it replays, and a corrupted copy does not *)
+Definition f4_trace : list (op * list obs) :=
+  [(ODeclExtern [[118]] [(RSingle (Some [99])); RWildcard], [(BTable 0)]); (ODeclExtern [[117]] [(RSingle (Some [99])); (RSingle (Some [100])); RWildcard], [(BTable 1)]); (ODeclExtern [[116]] [RWildcard], [(BTable 2)]); (OBegin false 142 (Some [116]) (SExisting 2), [(BDepth 1); (BInput 142 [(RWildcard, 0)]); (BTop (TFrom (mkTRef 2 [(RWildcard, 0)] (Some [116]))))]); (OBegin true 132 (Some [117]) (SExisting 1), [(BReserved 3); (BDepth 2); (BInput 132 [((RSingle (Some [99])), 1); ((RSingle (Some [100])), 2); (RWildcard, 3)]); (BTop (TFrom (mkTRef 1 [((RSingle (Some [99])), 1); ((RSingle (Some [100])), 2); (RWildcard, 3)] (Some [117]))))]); (ODeclare 134 (ERef 1) None false true, [(BCid 134 1)]); (ODeclare 135 (ERef 2) None false true, [(BCid 135 2)]); (OPush (TSelect [1; 2]), [(BTop (TSelect [1; 2]))]); (OBegin true 122 (Some [118]) (SExisting 0), [(BReserved 4); (BDepth 3); (BInput 122 [((RSingle (Some [99])), 4); (RWildcard, 5)]); (BTop (TFrom (mkTRef 0 [((RSingle (Some [99])), 4); (RWildcard, 5)] (Some [118]))))]); (ODeclare 124 (ERef 4) None false true, [(BCid 124 4)]); (OPush (TSelect [4]), [(BTop (TSelect [4]))]); (OEndInline 126 [((RSingle (Some [99])), 4)] (UJoin JInner ELit), [(BTable 4); (BDepth 2); (BInput 126 [((RSingle (Some [99])), 6)]); (BRedirect [(4, 6)]); (BTop (TJoin JInner (mkTRef 4 [((RSingle (Some [99])), 6)] None) ELit))]); (OEndInline 139 [((RSingle (Some [99])), 1); ((RSingle (Some [100])), 2); ((RSingle (Some [99])), 6)] (UJoin JInner ELit), [(BTable 3); (BDepth 1); (BInput 139 [((RSingle (Some [99])), 7); ((RSingle (Some [100])), 8); ((RSingle (Some [99])), 9)]); (BRedirect [(1, 7); (2, 8); (6, 9)]); (BTop (TJoin JInner (mkTRef 3 [((RSingle (Some [99])), 7); ((RSingle (Some [100])), 8); ((RSingle (Some [99])), 9)] None) ELit))]); (OEndTable (Some [109;97;105;110]) [(RWildcard, 0); ((RSingle (Some [99])), 7); ((RSingle (Some [100])), 8); ((RSingle (Some [99])), 9)], [(BTable 5); (BDepth 0)])].
+
+Example c16_ex_trace_replays : replay_ok f4_trace f4_head_rq = true /\ map fst f4_trace = f4_ops.
+Proof. vm_compute. auto. Qed.
+
+Example c16_ex_corrupted_trace_does_not_replay :
+  replay_verdict (firstn 5 f4_trace ++ [(ODeclare 134 ELit None false false, [BCid 134 2])] ++ skipn 6 f4_trace) f4_head_rq = 6
+  /\ replay_verdict (firstn 13 f4_trace) f4_head_rq = 14.
 Proof. vm_compute. auto. Qed.
